@@ -21,6 +21,7 @@ mod p13;
 mod p14;
 mod p15;
 mod p16;
+mod p17;
 mod csg;
 
 use engine::*;
@@ -45,6 +46,7 @@ macro_rules! for_prop {
             "C14" => $f::<p14::P>($($arg),*),
             "C15" => $f::<p15::P>($($arg),*),
             "C16" => $f::<p16::P>($($arg),*),
+            "C17" => $f::<p17::P>($($arg),*),
             other => {
                 eprintln!("unknown property {other}");
                 std::process::exit(2)
